@@ -77,9 +77,9 @@ func runMeta(c *Ctx) {
 		decl   string
 	}
 	tokMetaAlt := []string{"x", "v", "--", "-a", "--aa", "-n", "-m", "-nm", "-mn", "-na", "-o", "-ov", "-o=v", "--out=v", "--out", "--output=v", "--output"}
-	tiers := []tier{{leavesFull, size, toks, alen, ""}, {leavesNest, 4, []string{"x", "-a", "--"}, 3, ""}, {leavesAlt, 2, tokMetaAlt, 3, "alt"}, {leavesNum, 2, tokNum, 3, "num"}}
+	tiers := []tier{{leavesFull, size, toks, alen, ""}, {leavesNest, 4, []string{"x", "-a", "--"}, 3, ""}, {leavesAlt, 2, tokMetaAlt, 3, "alt"}, {leavesNum, 2, tokNum, 3, "num"}, {leavesFull, 2, tokMetaSm, 3, "sub"}}
 	if c.Thorough() {
-		tiers = []tier{{leavesFull, 3, tokMeta, 3, ""}, {leavesFull, 3, tokMetaSm, 4, ""}, {leavesMid, 4, tokMetaSm, 3, ""}, {leavesNest, 5, []string{"x", "-a", "--", "-"}, 3, ""}, {leavesAlt, 3, tokMetaAlt, 3, "alt"}, {leavesNum, 3, tokNum, 3, "num"}}
+		tiers = []tier{{leavesFull, 3, tokMeta, 3, ""}, {leavesFull, 3, tokMetaSm, 4, ""}, {leavesMid, 4, tokMetaSm, 3, ""}, {leavesNest, 5, []string{"x", "-a", "--", "-"}, 3, ""}, {leavesAlt, 3, tokMetaAlt, 3, "alt"}, {leavesNum, 3, tokNum, 3, "num"}, {leavesFull, 3, tokMetaSm, 3, "sub"}}
 	}
 	idx := 0
 	var asLang []langTier
